@@ -1,6 +1,7 @@
 package checks
 
 import (
+	"io"
 	"bytes"
 	"encoding/base64"
 	"encoding/hex"
@@ -24,7 +25,7 @@ func init() { register(c18{}) }
 func (c18) ID() string    { return "C18" }
 func (c18) Level() string { return "exploration" }
 func (c18) Rule() string {
-	return "non-interference over pairs of runs: CONNECT packets (with/without will, properties, authentication fields, from the C01 generator) x pairs of equally long, non-empty user name and/or password values — random, differing in one byte, equal to other field contents (client id, will topic, a user property, the authentication data), printable and non-printable, lengths 1..65535 — built through the API, decoded from a reference-encoded frame, and left behind in a Connect value that is reused to decode a CONNECT without credentials; Dump and String of the two packets must be byte-identical. A canary monitor additionally searches the output for >=3-byte fragments of the secret in raw, %v, %q, %x and base64 renderings to say where a leak is; only the pair relation decides. distinct = (packet signature, credential-pair class, path); non-trivial = all (credentials always present)"
+	return "non-interference over pairs of runs: CONNECT packets (with/without will, properties, authentication fields, from the C01 generator) x pairs of equally long, non-empty user name and/or password values — random, differing in one byte, equal to other field contents (client id, will topic, a user property, the authentication data), printable and non-printable, shaped like real credentials (JWT, Basic/Bearer material, key=value lists, JSON, URLs with user info, PEM, UUID, access-key ids), lengths 1..65535 — built through the API, decoded from a reference-encoded frame, and left behind in a Connect value that is reused to decode a CONNECT without credentials; before the diagnostics each packet goes through the same prelude (nothing, a successful write, a write that fails near the start, near the end or at the end of the frame, an earlier rendering, another CONNECT decoded on the same thread); Dump and String of the two packets must be byte-identical. A canary monitor additionally searches the output for >=3-byte fragments of the secret in raw, %v, %q, %x and base64 renderings to say where a leak is; only the pair relation decides. distinct = (packet signature, credential-pair class, path); non-trivial = all (credentials always present)"
 }
 func (c18) Assumptions() []string {
 	return []string{"the length of a credential and whether it is empty may show (the property allows it)"}
@@ -183,10 +184,41 @@ func (c18) Run(c *run.Ctx, phase, idx int) {
 	set(a1, u1, p1)
 	set(a2, u2, p2)
 
+	// what the program did with the packet just before it logs it: nothing,
+	// sent it, failed to send it (at the start, inside or at the end of the
+	// frame), looked at it, or received another CONNECT on the same thread
+	prelude := gen.Pick(r, "none", "none", "written", "write-failed-early", "write-failed-late", "write-failed-end", "rendered-before", "decoded-another")
+	before := func(q mq.Packet) {
+		mon.Guard(func() {
+			switch prelude {
+			case "written":
+				q.WriteTo(io.Discard)
+			case "write-failed-early", "write-failed-late", "write-failed-end":
+				w := mon.NewWriter()
+				q.WriteTo(w)
+				k := map[string]int{"write-failed-early": 3, "write-failed-late": len(w.Buf) - 3, "write-failed-end": len(w.Buf)}[prelude]
+				if k < 0 {
+					k = 0
+				}
+				q.WriteTo(&mon.RecordingWriter{FailAt: k, Err: mon.ErrInjected, ErrWhenFull: true})
+			case "rendered-before":
+				_ = q.String()
+				mq.Dump(io.Discard, q)
+			case "decoded-another":
+				if f, _, err, pan := libEncode(q); err == nil && pan == nil {
+					libRead(f)
+					libRead(f[:len(f)-1])
+				}
+			}
+		})
+	}
 	compare := func(path string, q1, q2 mq.Packet, frame []byte) {
-		c.Current(func() string { return "Dump+String/CONNECT " + path })
+		c.Current(func() string { return "Dump+String/CONNECT " + path + " after " + prelude })
+		before(q1)
 		d1, s1, pan1 := diagnostics(q1)
+		before(q2)
 		d2, s2, pan2 := diagnostics(q2)
+		c.Count("prelude", prelude, 1)
 		c.Eval(2)
 		c.Distinct(sigA^run.Hash64(path, class, itoa(which), itoa(len(u1)), itoa(len(p1))), true)
 		c.Count("pairs", class+"/"+path, 1)
